@@ -11,14 +11,14 @@ HERE = os.path.dirname(os.path.abspath(__file__))
 sys.path.insert(0, os.path.join(os.path.dirname(HERE), "rules"))
 import facts as FACTS
 from model import Program
-from effects import Effects
+from effects import Effects, load_program
 from rules_h import Handlers
 import registry, runner
 
 
 def analyse(crate_dir):
     fx = FACTS.build_facts(crate_dir)
-    P = Program(fx); E = Effects(P); H = Handlers(P, E)
+    P = load_program(fx); E = Effects(P); H = Handlers(P, E)
     ctx = registry.Ctx(P, E, H)
     ids = [json.loads(l)["id"] for l in open(os.path.join(os.path.dirname(HERE), "properties.jsonl"))]
     known = runner.load_known()
